@@ -143,6 +143,14 @@ func runBig(outPath string, seed int64) int {
 	// an id of 70 hex digits: hex.Decode writes past its 32-byte buffer
 	code, _ := get("/api/traces/"+hexID+hexID+hexID[:6], "")
 	res.Aux["byid_70_digit_id_status"] = code
+	// tags= that the grammar of reader/tempo/tags.go refuses: Search drops the error of request.String() and sends the empty text
+	x.W.Bridge.Drain()
+	code, body := get(fmt.Sprintf("/api/search?tags=k&start=%d&end=%d", base-60, base+60), "")
+	var stmts []string
+	for _, e := range x.W.Bridge.Drain() {
+		stmts = append(stmts, clip(e.SQL, 80))
+	}
+	res.Aux["search_with_unparsable_tags"] = map[string]any{"status": code, "body": clip(body, 160), "statements_sent_to_the_database": stmts}
 	if err := x.reset(); err == nil {
 		// 12 single-span traces in the last hour; no limit, no start / end
 		now := time.Now().Unix()
